@@ -242,7 +242,7 @@ def family_b3(tier):
         combos += [c for c in itertools.product(("flat", "data", "empty"), repeat=3) if c not in combos]
     for kinds in combos:
         for where in ("root", "entry"):
-            for nd in (0, 2):
+            for nd in (0, 2, 3, 4) if kinds in combos[:2] else (0, 2):     # also three and four <data> members on one level
                 ids = Ids()
                 groups = [make_group(kd, "s%d" % i, ids, cyc, 1, tier)[0] for i, kd in enumerate(kinds)]
                 data = [Data("d%d" % i, 2000 + i, cyc.data()) for i in range(nd)]
